@@ -196,6 +196,20 @@ CHECKS["C17"] = dict(
     note=TB + "Modelled not verified: Python re for the three constructs; SQLite and POSIX directory operations as atomic; disk = table "
          "measured after every command; parser normalisation (C08/C09); \\Marked/\\Unmarked projected away; guard name_ok (the two "
          "recorded findings); commands atomic (C10).", ref="6/C17")
+CHECKS["C08"] = dict(
+    technique="Coq proofs of completeness, totality and soundness of a hand-written Gallina mirror of asimap/parse.py against an RFC 3501 grammar given as a printer with free choices (all inputs, no bound) + regex/table pins + differential correspondence of the real IMAPClientCommand against the model, evaluated inside Coq",
+    text="Proved for all inputs: every sentence of the command grammar (RFC 3501 + the extensions the server announces), in any letter "
+         "case, string form and spelling choice, parses to exactly its AST with nothing left; every byte string yields a command or "
+         "BAD, never another failure or unbounded recursion; every accepted input below 10^4300 octets yields a well-formed AST whose "
+         "canonical sentence parses to the same AST. Exact INBOX (any case, any string form, whole name only), escape decoding, "
+         "literal-by-count, set/date/section decoding are lemmas. Refuted with witnesses and recorded as findings: text after a "
+         "complete command is ignored (C08-trailing-text); an APPEND year below 0100 is remapped (C08-datetime-2digit-year). Tied by "
+         "pinning the regex source texts and keyword tables and by parsing generated sentences, near-miss sentences (one "
+         "well-formedness condition broken) and mutated byte strings with both the real parser and the model.",
+    note=TB + "The model is hand-written and tied by correspondence, not generated. Modelled not verified: Python re semantics for the "
+         "pinned expressions, str.lower, int() and its 4300-digit limit, os.path.normpath (C09's model, bridge lemma), datetime.date, "
+         "email.utils.parsedate_to_datetime. email.message_from_bytes is outside the model (the AST carries the literal octets). "
+         "list_reference and fetch_peek are compared by the harness only.", ref="6/C08")
 NOT_YET = {}
 
 props = [json.loads(l) for l in (V / "properties.jsonl").read_text().splitlines() if l.strip()]
